@@ -435,6 +435,139 @@ theorem C13_text_stream_old_false : ¬ C13_text_stream_old := by
   obtain ⟨c, hc⟩ := h1 (.error ⟨deserializationKind, utf8ErrMsg (15, none)⟩) List.mem_cons_self
   cases hc
 
+/-! ## streamed responses: item sequences with errors -/
+
+/-- an item a server function can put into a `TextStream<ServerFnError<E>>`: a `String` or a declared error -/
+def TextItemOK (cu : Custom) (it : Except SErr Bytes) : Prop :=
+  match it with
+  | .ok b => ∃ s : Str, b = utf8Encode s
+  | .error e => e.WellFormed cu
+
+/-- **Output text stream round trip**: for every item sequence — errors first, in the middle, last, several,
+only errors, empty strings — the remote caller of a function with `output = StreamingText` receives exactly
+the items the direct caller receives: every `Ok` text, every `Err` with its kind and message, and every item
+after an error (the code relays the whole sequence; nothing ends the stream at a failure). -/
+theorem C13_text_out_roundtrip (cu : Custom) (items : List (Except SErr Bytes))
+    (h : ∀ it ∈ items, TextItemOK cu it) : textOutRemote cu items = items := by
+  unfold textOutRemote textOutWire
+  induction items with
+  | nil => simp [textDecodeWire]
+  | cons it rest ih =>
+    have hit := h it (by simp)
+    have ih' := ih (fun x hx => h x (by simp [hx]))
+    cases it with
+    | ok b =>
+      obtain ⟨s, hs⟩ := hit
+      have hv : utf8ErrGo 0 0 b = none := by rw [hs]; exact utf8ErrGo_utf8Encode s 0
+      simp only [List.map_cons, relayChunk, textDecodeWire, textStep, List.nil_append, hv]
+      rw [ih']
+    | error e =>
+      have hrt := C13_error_roundtrip_bytes cu e hit.1 hit.2
+      simp only [List.map_cons, relayChunk, textDecodeWire, hrt]
+      rw [ih']
+
+/-- in particular the caller sees the same items up to and including the first error -/
+theorem C13_text_out_first_error (cu : Custom) (items : List (Except SErr Bytes))
+    (h : ∀ it ∈ items, TextItemOK cu it) :
+    uptoFirstErr (textOutRemote cu items) = uptoFirstErr items := by
+  rw [C13_text_out_roundtrip cu items h]
+
+def wireErr? {ε α : Type} (c : Except ε α) : Option ε :=
+  match c with
+  | .error e => some e
+  | .ok _ => none
+
+/-- **No error chunk is ever dropped by the client decoder**: whatever arrives — any chunking, ill-formed
+text, anything pending — every `Err` chunk comes out as `E::de` of its bytes, in order (the decoder may add
+`Deserialization` errors of its own for ill-formed text, it never removes one). -/
+theorem C13_text_decode_keeps_errors (cu : Custom) (wire : List WireChunk) : ∀ pending : Bytes,
+    List.Sublist ((wire.filterMap wireErr?).map (de cu)) ((textDecodeWire cu pending wire).filterMap wireErr?) := by
+  induction wire with
+  | nil => intro pending; simp
+  | cons c cs ih =>
+    intro pending
+    cases c with
+    | error b =>
+      simp only [List.filterMap_cons, wireErr?, List.map_cons, textDecodeWire]
+      exact List.Sublist.cons_cons _ (ih pending)
+    | ok b =>
+      simp only [List.filterMap_cons, wireErr?, textDecodeWire]
+      split
+      · next it p' _ =>
+        cases it with
+        | ok x => simp only [List.filterMap_cons, wireErr?]; exact ih p'
+        | error x => simp only [List.filterMap_cons, wireErr?]; exact List.Sublist.cons _ (ih p')
+      · next p' _ => exact ih p'
+
+/-- the server half relays every item: one wire chunk per item, errors as their `ser()` bytes -/
+theorem C13_text_out_wire_complete (items : List (Except SErr Bytes)) :
+    (textOutWire items).length = items.length ∧
+    (textOutWire items).filterMap wireErr? = (items.filterMap wireErr?).map ser := by
+  constructor
+  · simp [textOutWire]
+  · unfold textOutWire
+    induction items with
+    | nil => rfl
+    | cons it rest ih =>
+      cases it with
+      | ok b => simp only [List.map_cons, List.filterMap_cons, wireErr?]; exact ih
+      | error e => simp only [List.map_cons, List.filterMap_cons, wireErr?, ih]
+
+/-- **Output byte stream round trip**: chunks pass unchanged, an error chunk that is the `ser()` of a
+declared error passes unchanged, for every position of the errors in the sequence. -/
+theorem C13_bytes_out_roundtrip (cu : Custom) (items : List WireChunk)
+    (h : ∀ b, Except.error b ∈ items → ∃ e : SErr, e.WellFormed cu ∧ b = ser e) :
+    bytesOutRemote cu items = items := by
+  unfold bytesOutRemote bytesOutWire
+  induction items with
+  | nil => rfl
+  | cons it rest ih =>
+    have ih' := ih (fun b hb => h b (by simp [hb]))
+    cases it with
+    | ok b => simp only [List.map_cons, relayChunk]; rw [ih']
+    | error b =>
+      obtain ⟨e, he, hb⟩ := h b (by simp)
+      subst hb
+      simp only [List.map_cons, relayChunk, C13_error_roundtrip_bytes cu e he.1 he.2]
+      rw [ih']
+
+theorem table_custom_flag : ∀ t ∈ decodeArms, isCustomKind t.2.1 = t.2.2 := by decide
+
+theorem deserialization_not_custom : isCustomKind deserializationKind = false := by decide
+
+/-- what `de` returns is a well-formed value when the custom type's `Display`/`FromStr` pair is stable
+(`from_str(x.to_string())` of a parsed value parses to the same text) -/
+theorem de_wellFormed (cu : Custom) (hidem : ∀ s d, cu.canon s = some d → cu.canon d = some d) (b : Bytes) :
+    (de cu b).WellFormed cu := by
+  refine ⟨C13_decode_total cu b, ?_⟩
+  unfold de
+  split
+  · rw [fromSfe_deserialization]; intro hc; rw [deserialization_not_custom] at hc; cases hc
+  · next s _ =>
+    split
+    · next e he =>
+      unfold decodeErr at he
+      split at he
+      · cases he
+      · next ty data _ =>
+        split at he
+        · next variant ha =>
+          have := table_custom_flag _ (assoc_mem ty decodeArms _ ha)
+          cases he
+          intro hc; simp only at this; rw [this] at hc; cases hc
+        · next variant ha =>
+          split at he
+          · next d hd => cases he; intro _; exact hidem _ _ hd
+          · cases he
+        · cases he
+    · rw [fromSfe_deserialization]; intro hc; rw [deserialization_not_custom] at hc; cases hc
+
+/-- for *arbitrary* error bytes the chunk is normalised, but the error it decodes to is the same -/
+theorem C13_bytes_out_error_value (cu : Custom) (hidem : ∀ s d, cu.canon s = some d → cu.canon d = some d)
+    (b : Bytes) : ∃ b', relayChunk cu (.error b) = .error b' ∧ de cu b' = de cu b := by
+  have hw := de_wellFormed cu hidem b
+  exact ⟨ser (de cu b), rfl, C13_error_roundtrip_bytes cu (de cu b) hw.1 hw.2⟩
+
 /-! ## non-vacuity -/
 
 /-- a message full of separators and line breaks, through text and bytes -/
@@ -476,6 +609,22 @@ example : remoteCall ⟨"GetUrl", .get, .get, .query, .query, argsKind⟩ (sfeCo
 /-- a text cut one byte at a time, with an empty chunk in between -/
 example : textDecodeItems [[97], [0xF0], [0x9F], [], [0x98], [0x80, 0xC3], [0xA9]] =
     [.ok [97], .ok [0xF0, 0x9F, 0x98, 0x80], .ok [0xC3, 0xA9]] := by decide
+
+/-- a failure in the middle of a streamed response: the rows, the error, and the row after it -/
+example : textOutRemote noCustomError
+    [.ok [114, 49], .error ⟨"ServerError".toList, "reset|now".toList⟩, .ok [114, 50]] =
+    [.ok [114, 49], .error ⟨"ServerError".toList, "reset|now".toList⟩, .ok [114, 50]] := by decide
+
+example : TextItemOK noCustomError (.ok [114, 49]) ∧
+    TextItemOK noCustomError (.error ⟨"ServerError".toList, "reset|now".toList⟩) :=
+  ⟨⟨['r', '1'], by decide⟩, by constructor <;> decide⟩
+
+/-- raw error bytes that are not an encoding are normalised to the error they decode to -/
+example : bytesOutRemote noCustomError [.ok [1], .error [110, 111]] =
+    [.ok [1], .error (ser ⟨deserializationKind, "Invalid format: missing delimiter in \"no\"".toList⟩)] := by decide
+
+example : ∀ s d, noCustomError.canon s = some d → noCustomError.canon d = some d := by
+  intro s d h; simp [noCustomError] at h ⊢; exact h
 
 /-- really ill-formed bytes and a truncated end are still reported -/
 example : textDecodeItems [[97, 0xFF], [0xC3]] =
